@@ -341,6 +341,13 @@ def run(ctx):
                         if quick and (k % 4) != (len(isos) + SECOND.index(second)) % 4:
                             continue            # quick: one (preset, grouping) combination per annotation, rotating
                         jobs.append(((isos, second), 0, preset, grouped, ctx.scratch))
+    # several read clusters per gene (the gene list is loaded once per covered region; with a nested or overlapping second gene the
+    # regions see different gene lists with the same outer coordinates) x the second-gene kinds
+    for isos in ([("A1", "A2")] if quick else list(itertools.combinations(ids, 2))):
+        for second in SECOND:
+            for two in (1, 2):
+                for preset in (("default",) if quick else ("exact", "default")):
+                    jobs.append(((isos, second), two, preset, 0, ctx.scratch))
     nrows = 0
     for key, errs, nf in core.pmap(case, jobs):
         nrows += nf
